@@ -322,6 +322,8 @@ def build(S, tier):
             got = I.getattr(mc, attr)
             return ctx.attrs.get(attr) is val and got is val and attr not in mc.attrs
         for i, p in enumerate(S.explore(run_set, f"{cls}.{attr}")):
+            if p.status == "unsupported":
+                continue
             S.prove(f"{cls}.{attr}#ensures.setter_forwards_to_context@{i}", p.status == "return" and p.value is True,
                     kind="ensures", why=f"{p.status} {p.exc or p.reason or p.value}")
             S.register_function(p.interp, f"{cls}.{attr}", 1)
